@@ -163,13 +163,18 @@ def coq_eval(workdir, name, text, timeout=900):
 
 
 def coq_eval_shards(workdir, texts, timeout=900):
-    """texts: list of .v sources; run in parallel; returns list of (rc,out)."""
+    """texts: list of .v sources; run in parallel; returns list of (rc,out).
+    The directory is private to this process and removed afterwards."""
+    workdir = "%s-%d" % (workdir.rstrip("/"), os.getpid())
     if os.path.isdir(workdir):
         shutil.rmtree(workdir)
     os.makedirs(workdir, exist_ok=True)
-    with ThreadPoolExecutor(max_workers=NCPU) as ex:
-        futs = [ex.submit(coq_eval, workdir, "cases_%03d" % i, t, timeout) for i, t in enumerate(texts)]
-        return [f.result() for f in futs]
+    try:
+        with ThreadPoolExecutor(max_workers=NCPU) as ex:
+            futs = [ex.submit(coq_eval, workdir, "cases_%03d" % i, t, timeout) for i, t in enumerate(texts)]
+            return [f.result() for f in futs]
+    finally:
+        shutil.rmtree(workdir, ignore_errors=True)
 
 
 def parse_eval_pairs(out):
@@ -238,8 +243,17 @@ def run_s4(args, timeout=60, env=None, cwd=None, inp=None):
 
 
 def scratch_dir(prop):
-    """per-property scratch directory under /verif/.cache (never /tmp)"""
-    d = os.path.join(CACHE, "scratch", prop)
+    """per-property, per-process scratch directory under /verif/.cache (never /tmp);
+    directories left by processes that no longer exist are removed"""
+    base = os.path.join(CACHE, "scratch")
+    os.makedirs(base, exist_ok=True)
+    for n in os.listdir(base):
+        if n == prop or n.startswith(prop + "-"):
+            pid = n[len(prop) + 1:]
+            alive = pid.isdigit() and os.path.exists("/proc/" + pid)
+            if not alive:
+                shutil.rmtree(os.path.join(base, n), ignore_errors=True)
+    d = os.path.join(base, "%s-%d" % (prop, os.getpid()))
     if os.path.isdir(d):
         shutil.rmtree(d)
     os.makedirs(d)
